@@ -5167,7 +5167,9 @@ class Device(utils.CompositeEventEmitter):
                     )
                 )
 
-                await pending_establishment
+                await cis_link.acl_connection.cancel_on_disconnection(
+                    pending_establishment
+                )
 
     # [LE only]
     @utils.experimental('Only for testing.')
@@ -5224,7 +5226,7 @@ class Device(utils.CompositeEventEmitter):
                         broadcast_code=parameters.broadcast_code or bytes(16),
                     )
                 )
-                await established
+                await utils.cancel_on_event(self, Device.EVENT_FLUSH, established)
             except hci.HCI_Error:
                 # The establishment-failure event handler may have already
                 # removed the entry; pop so this cleanup cannot raise KeyError
@@ -5277,7 +5279,7 @@ class Device(utils.CompositeEventEmitter):
                         bis=parameters.bis,
                     )
                 )
-                await established
+                await utils.cancel_on_event(self, Device.EVENT_FLUSH, established)
             except hci.HCI_Error:
                 # The establishment-failure event handler may have already
                 # removed the entry; pop so this cleanup cannot raise KeyError
@@ -5317,7 +5319,7 @@ class Device(utils.CompositeEventEmitter):
                     connection_handle=connection.handle
                 )
             )
-            return await read_feature_future
+            return await connection.cancel_on_disconnection(read_feature_future)
 
     async def get_remote_classic_features(
         self, connection: Connection
@@ -5371,7 +5373,9 @@ class Device(utils.CompositeEventEmitter):
                 )
             )
 
-            new_features, max_page_number = await read_feature_future
+            new_features, max_page_number = await connection.cancel_on_disconnection(
+                read_feature_future
+            )
             read_features |= new_features
             if not (read_features & hci.LmpFeatureMask.EXTENDED_FEATURES):
                 return read_features
@@ -5384,7 +5388,9 @@ class Device(utils.CompositeEventEmitter):
                         page_number=current_page_number,
                     )
                 )
-                new_features, max_page_number = await read_feature_future
+                new_features, max_page_number = (
+                    await connection.cancel_on_disconnection(read_feature_future)
+                )
                 read_features |= new_features << (current_page_number * 64)
                 current_page_number += 1
 
@@ -5412,7 +5418,7 @@ class Device(utils.CompositeEventEmitter):
                     connection_handle=connection.handle
                 )
             )
-            return await complete_future
+            return await connection.cancel_on_disconnection(complete_future)
 
     @utils.experimental('Only for testing.')
     async def set_default_cs_settings(
@@ -5501,7 +5507,7 @@ class Device(utils.CompositeEventEmitter):
                     reserved=0x00,
                 )
             )
-            return await complete_future
+            return await connection.cancel_on_disconnection(complete_future)
 
     @utils.experimental('Only for testing.')
     async def enable_cs_security(self, connection: Connection) -> None:
@@ -5524,7 +5530,7 @@ class Device(utils.CompositeEventEmitter):
                     connection_handle=connection.handle
                 )
             )
-            return await complete_future
+            return await connection.cancel_on_disconnection(complete_future)
 
     @utils.experimental('Only for testing.')
     async def set_cs_procedure_parameters(
@@ -5589,7 +5595,7 @@ class Device(utils.CompositeEventEmitter):
                     enable=enabled,
                 )
             )
-            return await complete_future
+            return await connection.cancel_on_disconnection(complete_future)
 
     @host_event_handler
     def on_flush(self):
